@@ -117,7 +117,7 @@ func c19Violate(res *verifkit.Result, sig map[string]interface{}, replay interfa
 	k := fmt.Sprint(sig)
 	c19SigCount[k]++
 	if c19SigCount[k] <= 2 {
-		res.Violate(sig, replay, format, a...)
+		res.Violate(sig, map[string]interface{}{"violated": sig, "input": replay}, format, a...)
 	}
 }
 
